@@ -148,6 +148,16 @@ fn expand_single_relspec(value: &str, ctx: &impl ElementMap) -> String {
     value.to_string()
 }
 
+/// XML comments cannot contain '--'; reject rather than emit malformed output.
+fn check_comment_text(text: &str) -> Result<()> {
+    if text.contains("--") {
+        return Err(SvgdxError::InvalidData(format!(
+            "Comment text may not contain '--': '{text}'"
+        )));
+    }
+    Ok(())
+}
+
 impl SvgElement {
     pub fn new(name: &str, attrs: &[(String, String)]) -> Self {
         let mut attr_map = AttrMap::new();
@@ -261,7 +271,9 @@ impl SvgElement {
             events.push(OutputEvent::Comment(
                 format!(" {} ", self.original)
                     .replace('"', "`")
-                    .replace(['<', '>'], ""),
+                    .replace(['<', '>'], "")
+                    // '--' may not appear within an XML comment
+                    .replace("--", "- -"),
             ));
             events.push(OutputEvent::Text(format!("\n{}", " ".repeat(self.indent))));
         }
@@ -270,12 +282,14 @@ impl SvgElement {
         if let Some(comment) = self.get_attr("_") {
             // Expressions in comments are evaluated
             let value = eval_attr(&comment, ctx)?;
+            check_comment_text(&value)?;
             events.push(OutputEvent::Comment(format!(" {value} ")));
             events.push(OutputEvent::Text(format!("\n{}", " ".repeat(self.indent))));
         }
 
         // 'Raw' comment: no evaluation of expressions occurs here
         if let Some(comment) = self.get_attr("__") {
+            check_comment_text(&comment)?;
             events.push(OutputEvent::Comment(format!(" {comment} ")));
             events.push(OutputEvent::Text(format!("\n{}", " ".repeat(self.indent))));
         }
